@@ -77,7 +77,12 @@ def run(ctx):
             ctx.rng.shuffle(labels)
             off = [ctx.rng.choice([0, 0, 50, -200]) for _ in range(d)]
             rows = [[ctx.rng.randint(-20, 20) + off[j] + 7 * labels[i] for j in range(d)] for i in range(T)]
-            syn.append({"synthetic": True, "K": K, "labels": labels, "rows": rows})
+            # the index is scale-free: the same data in units 2^-e (exact in float64) must give the same value,
+            # however small the within-cluster dispersion becomes
+            e = ctx.rng.choice([0, 0, 0, 16, 30, 40])
+            if e:
+                rows = [[str(Fraction(x, 2 ** e)) for x in r] for r in rows]
+            syn.append({"synthetic": True, "K": K, "labels": labels, "rows": rows, "scale_exp": e})
         cfgs = [c for c in ctx.corpus if not c.get("synthetic")]
         for i in range(14 if ctx.quick() else 150):
             cfg = tu.gen_config(ctx.rng)
@@ -89,15 +94,16 @@ def run(ctx):
     lines = []
     for c in syn:
         K, labels, rows = c["K"], c["labels"], c["rows"]
-        data = np.array(rows, dtype=float)
+        rows = [[Fraction(x) for x in r] for r in rows]
         members = [[i for i, x in enumerate(labels) if x == k] for k in range(K)]
-        means = [[Fraction(sum(rows[i][j] for i in m), len(m)) for j in range(len(rows[0]))] for m in members]
+        means = [[sum(rows[i][j] for i in m) / len(m) for j in range(len(rows[0]))] for m in members]
         lines.append(f"ch {len(rows)} {K} {len(rows[0])} {show_list(members, lambda l: show_list(l), ';')} "
-                     f"{show_list(means, lambda r: show_list(r, frac_str), ';')} {show_list(rows, lambda r: show_list(r), ';')}")
+                     f"{show_list(means, lambda r: show_list(r, frac_str), ';')} {show_list(rows, lambda r: show_list(r, frac_str), ';')}")
     outs = ctx.driver.run(lines)
     for c, mo in zip(syn, outs):
         K, labels = c["K"], c["labels"]
-        data = np.array(c["rows"], dtype=float)
+        data = np.array([[float(Fraction(x)) for x in r] for r in c["rows"]], dtype=float)
+        ctx.count(f"synthetic_scale:2^-{c.get('scale_exp', 0)}")
         # a real model state whose clusters carry the statistics the statistics phase would give them
         from fast_ticc import cluster_maintenance as cm
         from fast_ticc.containers import arguments as _arguments, model_state as _ms
